@@ -26,7 +26,7 @@ def values(d):
 @fpheap.with_heap_cases(("repr",), 40, 1500)
 class C17(vlib.Check):
     id = "C17"
-    props_modules = ["E3fpVerif.Props.C17"]
+    props_modules = ["E3fpVerif.Props.C17", "E3fpVerif.Props.C17Db"]
     gen_items = ["fprint_fold", "fprinter_consts"]
     stateful_driver = True      # database cases reset the store first; fingerprinter cases are stateless
     rule = ("fingerprints of each kind (generated, and derived by +/- of count fingerprints so that zero differences occur) "
